@@ -14,6 +14,7 @@ pub mod c10;
 pub mod c11;
 pub mod c12;
 pub mod c13;
+pub mod c14;
 pub mod c15;
 pub mod c16;
 pub mod c17;
@@ -35,6 +36,7 @@ pub fn by_id(id: &str) -> Option<Arc<dyn Check>> {
         "C11" => Arc::new(c11::C11),
         "C12" => Arc::new(c12::C12),
         "C13" => Arc::new(c13::C13),
+        "C14" => Arc::new(c14::C14),
         "C15" => Arc::new(c15::C15),
         "C16" => Arc::new(c16::C16),
         "C17" => Arc::new(c17::C17),
